@@ -53,7 +53,11 @@ MANIFEST = {
             "MAC / interface / enabled / on-link tests, TTL decrement, its test, the two header writes, send, find_best_route + the "
             "next-hop look-ups) and the model's routerProcess is proved to compute exactly what they compute for every state, "
             "route table, ARP cache, frame and fuel (C08_gen_route_frame_process); from the programs alone: nothing is sent "
-            "without a decrement tested < 1 and both header writes (C08_gen_route_frame_hops). Float metrics: on "
+            "without a decrement tested < 1 and both header writes (C08_gen_route_frame_hops). ICMP is translated as well: ICMP.ping "
+            "(incl. the loopback branch, now an early case of the model's ping: nothing sent, answer = some interface enabled), "
+            "_send_icmp_echo_request and the host / router _process_icmp_echo_request become programs and the model's ping, one loop "
+            "step and the echo-request branches of hostRecv / routerRecv are proved to be their interpretation (C08_gen_icmp_*; "
+            "C08_gen_icmp_ping for pings > 0 or a loopback target: the source divides by pings in its statistics line). Float metrics: on "
             "A switch re-points a MAC to the port it was last seen on, whatever its table held (learning is unconditional and precedes "
             "the table read); R-net re-cables hosts at run time. On finite metrics the float loop is the integer loop; for every table the selected entry has no strictly cheaper rival of its "
             "prefix, and for every nan-free (= constructible: RouteEntry refuses NaN) table it is the minimum in -inf <= finite <= inf. Tie: constants, comparison "
@@ -71,7 +75,9 @@ MANIFEST = {
             "is composed in the driver from proved steps, not part of the proved model. "
             "Metrics are Int in the model (float inf/nan not modelled). Rule lists are abstracted to one verdict per payload "
             "class (router: default ACL plus one permit flag; firewall: six lists x three classes); an air space frequency is "
-            "modelled for two access points only; link / air space capacity is outside the forwarding model.",
+            "modelled for two access points only (3-5 access points per frequency are only SEARCHED with the property's oracle on the "
+            "implementation, family air_many; the model has one peer per interface); the liveness theorems assume the pinged "
+            "address is not a loopback address; link / air space capacity is outside the forwarding model.",
     "technique": "Lean 4 theorems over executable models of route selection and frame forwarding; models tied by regenerated tables and "
                  "two differential rigs",
     "design_ref": "5/C08",
